@@ -414,14 +414,21 @@ func LSTValue(locals []string, appendMode bool) *rm.Value {
 // (if any), then the values; with choice points for NOP pads at top level and
 // for repeating the version marker (+LST) before any later value.
 func EncodeStream(ch rm.Chooser, vals []*rm.Value) []byte {
-	syms := CollectSymbols(vals)
-	ids := map[string]uint64{}
-	for i, s := range SystemSymbols {
-		ids[s] = uint64(i + 1)
+	var syms []string
+	var ids map[string]uint64
+	// declare (re)builds the table for the values from index i on: after a version marker only
+	// the symbols still needed are declared, so their IDs differ from the first table's
+	declare := func(i int) {
+		syms = CollectSymbols(vals[i:])
+		ids = map[string]uint64{}
+		for k, s := range SystemSymbols {
+			ids[s] = uint64(k + 1)
+		}
+		for k, s := range syms {
+			ids[s] = uint64(10 + k)
+		}
 	}
-	for i, s := range syms {
-		ids[s] = uint64(10 + i)
-	}
+	declare(0)
 	e := &Encoder{Ch: ch, SID: func(t string) uint64 {
 		id, ok := ids[t]
 		if !ok {
@@ -430,17 +437,27 @@ func EncodeStream(ch rm.Chooser, vals []*rm.Value) []byte {
 		return id
 	}}
 	out := append([]byte{}, BVM...)
-	emitLST := func() {
+	emitLST := func(appendForm bool) {
 		if len(syms) > 0 {
-			out = append(out, e.Value(LSTValue(syms, false))...)
+			out = append(out, e.Value(LSTValue(syms, appendForm))...)
 		}
 	}
-	emitLST()
+	emitLST(false)
 	for i, v := range vals {
 		out = append(out, e.TopNop()...)
-		if i > 0 && ch.Dev("bvm.repeat", 2) == 1 {
-			out = append(out, BVM...)
-			emitLST()
+		if i > 0 {
+			// a repeated version marker resets the table, so the symbols still needed are declared
+			// again: either as a plain table or as one that "appends" to the (now empty) system context
+			switch ch.Dev("bvm.repeat", 3) {
+			case 1:
+				out = append(out, BVM...)
+				declare(i)
+				emitLST(false)
+			case 2:
+				out = append(out, BVM...)
+				declare(i)
+				emitLST(true)
+			}
 		}
 		out = append(out, e.Value(v)...)
 	}
